@@ -57,6 +57,10 @@ def run(ck: Checker, prog: Program, tier: str):
     p_fname, p_pre, p_proc, p_opt = w.params
     s = eng.summary(w)
 
+    # the file written for an input is that input's result alone, whatever the output directory already holds
+    from . import c12
+    with ck.borrow(c12, "C19.R3+"):
+        ck.guard(c12._writers_truncate, ck, prog)
     # ---------------------------------------------------------------- R1
     shared = [e for e in s.effects if (e.origin[0] == "P" and e.origin[1] in (1, 2, 3)) or e.origin[0] == "G"]
     if not shared:
